@@ -344,8 +344,8 @@ def canon(x):
                 t["nonint"] = x["nonint"]
             if x.get("ptr"):
                 t["ptr"] = x["ptr"]
-            if x.get("const"):
-                t["const"] = True
+            # (the const qualifier is not part of the structure C17 speaks about and the projection of declaration
+            # specifiers does not carry it)
             return t
         return {k: canon(v) for k, v in x.items()}
     return x
